@@ -29,31 +29,94 @@ def make_series(rng, T, N, regimes=3, scale=1.0, seg=(15, 40), offset=None):
 
 
 # --------------------------------------------------------------------------- pool
+# completion schedule of the in-process pool: None = every task completes when it is asked for (submission order);
+# "reverse" / "rotate" / an int seed = the tasks of a batch complete in that permuted order, and a task that was not
+# asked for yet may already be `ready()` — what a real multi-worker pool does.  Set through `completion_order(...)`.
+COMPLETION = {"mode": None}
+
+
 class _Done:
-    def __init__(self, fn, args, kwargs):
+    """the AsyncResult of the in-process pool: get / wait / ready / successful."""
+
+    def __init__(self, fn, args, kwargs, pool=None):
         self._fn, self._args, self._kwargs = fn, args, kwargs or {}
         self._has, self._val, self._exc = False, None, None
+        self._pool = pool
 
-    def get(self, timeout=None):
+    def _run(self):
         if not self._has:
             try:
                 self._val = self._fn(*self._args, **self._kwargs)
             except BaseException as e:      # re-raised on get(), like AsyncResult
                 self._exc = e
             self._has = True
+
+    def _complete(self):
+        if self._pool is not None:
+            self._pool._advance_until(self)
+        else:
+            self._run()
+
+    def wait(self, timeout=None):
+        self._complete()
+
+    def ready(self):
+        return self._has
+
+    def successful(self):
+        if not self._has:
+            raise ValueError("not ready")
+        return self._exc is None
+
+    def get(self, timeout=None):
+        self._complete()
         if self._exc is not None:
             raise self._exc
         return self._val
 
 
 class InlinePool:
-    """in-process stand-in for multiprocessing.Pool (apply_async / close / join / terminate)."""
+    """in-process stand-in for multiprocessing.Pool (apply_async / close / join / terminate) with a scriptable
+    completion order (see COMPLETION)."""
 
     def __init__(self):
         self.closed = self.joined = self.terminated = False
+        self._pending = []          # submitted, not yet completed, in submission order
+        self._order = None          # completion order of the current batch
+        self.completions = []       # submission indices within their batch, in completion order (for the evidence)
 
     def apply_async(self, fn, args=(), kwds=None):
-        return _Done(fn, args, kwds)
+        t = _Done(fn, args, kwds, self)
+        if self._order is not None:        # a new batch starts: finish what is left of the old one first
+            for x in self._order:
+                x._run()
+            self._order, self._pending = None, []
+        self._pending.append(t)
+        return t
+
+    def _advance_until(self, task):
+        if task._has:
+            return
+        if self._order is None:
+            batch = list(self._pending)
+            mode = COMPLETION["mode"]
+            if mode == "reverse":
+                order = batch[::-1]
+            elif mode == "rotate":
+                order = batch[-1:] + batch[:-1]
+            elif isinstance(mode, int):
+                order = list(batch)
+                pyrandom.Random(mode + len(self.completions)).shuffle(order)
+            else:
+                order = batch
+            self._order = order
+            self._batch = batch
+        for x in self._order:
+            if not x._has:
+                x._run()
+                self.completions.append(self._batch.index(x))
+            if x is task:
+                break
 
     def close(self):
         self.closed = True
@@ -63,6 +126,16 @@ class InlinePool:
 
     def terminate(self):
         self.terminated = True
+
+
+@contextlib.contextmanager
+def completion_order(mode):
+    old = COMPLETION["mode"]
+    COMPLETION["mode"] = mode
+    try:
+        yield
+    finally:
+        COMPLETION["mode"] = old
 
 
 @contextlib.contextmanager
@@ -148,6 +221,28 @@ def snapshot_state(model):
             "inv": arr(c.inverse_covariance), "logdet": c.log_determinant,
         } for c in model.clusters],
     }
+
+
+def real_model(thetas, mus, window_size, num_points, eps=0, labels=None, covs=None):
+    """a REAL ModelState (real argument bundle, real cluster containers) carrying the given MRFs and means — the
+    checks never hand the library a stand-in object: a harmless refactoring that reads another public attribute of
+    the containers must keep working, and a defect must not be 'caught' by an AttributeError."""
+    from fast_ticc.containers import arguments, model_state
+    K = len(thetas)
+    n = int(np.atleast_2d(thetas[0]).shape[0])
+    ua = arguments.UserArguments(sparsity_weight=0.11, iteration_limit=5, label_switching_cost=1.0, min_cluster_size=2,
+                                 min_meaningful_covariance=eps, num_clusters=K, num_processors=1,
+                                 window_size=window_size, biased_covariance=False)
+    st = model_state.ModelState.empty_model(ua, np.zeros((num_points, n)))
+    if labels is not None:
+        st.point_labels = list(labels)
+    for k, cl in enumerate(st.clusters):
+        t = np.atleast_2d(np.asarray(thetas[k], dtype=float))
+        cl.train_inverse = t
+        cl.stacked_data_mean = np.asarray(mus[k], dtype=float)
+        if covs is not None:
+            cl.empirical_covariance = np.atleast_2d(np.asarray(covs[k], dtype=float))
+    return st
 
 
 def snapshots_equal(a, b, fields=("members", "mean", "emp", "train", "comp", "logdet")):
@@ -405,6 +500,8 @@ def execute(cfg, trace=True, **trace_kw):
         timer = threading.Timer(HANG["seconds"], HANG["on_hang"], args=(dict(cfg),))
         timer.daemon = True
         timer.start()
+    if cfg.get("completion") is not None:
+        stack.enter_context(completion_order(cfg["completion"]))
     with stack, warnings.catch_warnings():
         warnings.simplefilter("ignore")
         try:
